@@ -27,6 +27,37 @@ type env struct {
 	// Detected on the first honest proof; false = the layout documented in shplonk.deriveChallenge today.
 	bindCV     bool
 	layoutSeen bool
+	truthS     [][]*big.Int   // true evaluations of the statement under attack (SHPLONK)
+	truthF     [][][]*big.Int // true outer values of the statement under attack (fflonk)
+}
+
+func equal2(a, b [][]*big.Int) bool {
+	if len(a) != len(b) {
+		return false
+	}
+	for i := range a {
+		if len(a[i]) != len(b[i]) {
+			return false
+		}
+		for j := range a[i] {
+			if a[i][j].Cmp(b[i][j]) != 0 {
+				return false
+			}
+		}
+	}
+	return true
+}
+
+func equal3(a, b [][][]*big.Int) bool {
+	if len(a) != len(b) {
+		return false
+	}
+	for i := range a {
+		if !equal2(a[i], b[i]) {
+			return false
+		}
+	}
+	return true
 }
 
 func newHash(name string) hash.Hash {
@@ -165,8 +196,23 @@ type chal struct {
 }
 
 func (e *env) gamma(hname string, dig []*big.Int, pts [][]*big.Int, cv [][]*big.Int, data [][]byte) chal {
+	return e.gammaOmit("", hname, dig, pts, cv, data)
+}
+
+// gammaOmit is gamma with one binding left out ("points", "digests", "data"): the challenge a verifier would compute
+// if it forgot that binding. Only used to build forgeries that such a verifier accepts.
+func (e *env) gammaOmit(omit, hname string, dig []*big.Int, pts [][]*big.Int, cv [][]*big.Int, data [][]byte) chal {
 	h := newHash(hname)
 	h.Write([]byte("gamma"))
+	if omit == "points" {
+		pts = nil
+	}
+	if omit == "digests" {
+		dig = nil
+	}
+	if omit == "data" {
+		data = nil
+	}
 	for i := range pts {
 		for j := range pts[i] {
 			h.Write(e.frBytes(pts[i][j]))
@@ -193,7 +239,9 @@ func (e *env) zOf(hname string, g chal, w any) chal {
 	h := newHash(hname)
 	h.Write([]byte("z"))
 	h.Write(g.raw)
-	h.Write(e.in.G1Marshal(w))
+	if w != nil {
+		h.Write(e.in.G1Marshal(w))
+	}
 	raw := h.Sum(nil)
 	return chal{raw, e.f.red(new(big.Int).SetBytes(raw))}
 }
